@@ -215,7 +215,9 @@ def rfcOf (fmt : List (Int × Str)) (prs : List (Str × Int)) : Rfc3339 :=
   { format := fun s => match fmt.find? (fun p => p.1 == s) with
       | some p => p.2
       | none => [63]
-    parse := fun t => (prs.find? (fun p => p.1 == t)).map (·.2) }
+    parse := fun t => (prs.find? (fun p => p.1 == t)).map (·.2)
+    -- the harness runs in the UTC zone: local years 0..9999
+    inYears := fun v => decide (minEpoch0 ≤ v) && decide (v ≤ maxEpoch) }
 
 /-- `tag:E<n>` / `tag:M<n>` -/
 def parseHints (s : String) : Option Hints := do
